@@ -249,6 +249,11 @@ func (p *c14Parent) gen(r *rand.Rand, emit vutil.Emit) {
 		saves := 1 + r.IntN(20)
 		for s := 0; s < saves; s++ {
 			size := c14Size(r)
+			// The variant first: it bounds the size the write fault is drawn from.
+			upgrade := r.IntN(5) == 0
+			if upgrade && size > 4<<20 {
+				size = 4 << 20
+			}
 			sz, sd := strconv.Itoa(size), strconv.FormatUint(r.Uint64N(1<<40), 10)
 			fault := ""
 			switch f := r.IntN(16); {
@@ -267,10 +272,7 @@ func (p *c14Parent) gen(r *rand.Rand, emit vutil.Emit) {
 			}
 			probe := vc14.Probe(mode, fault)
 			failing := fault == "faildir" || strings.HasPrefix(fault, "fsize=")
-			if r.IntN(5) == 0 {
-				if size > 4<<20 {
-					sz = strconv.Itoa(4 << 20)
-				}
+			if upgrade {
 				ver := strconv.Itoa(r.IntN(int(configmigrate.LastSchemaVersion)))
 				emit("C14.put", vutil.Hex(c14DestRel), sz, sd, ver)
 				emit("C14.save", "upgrade", sz, sd, vutil.B(!failing), "0", probe)
